@@ -105,6 +105,15 @@ func (l *panicLogger) Terminate() {}
 // panicOrigin reads a stack taken in a deferred function of a panicking goroutine: the first frame
 // below the panic call outside the Go runtime is the code that panicked - code of the repository
 // (internal) or of the harness. where lists the first repository frames.
+// repoRoot is where the sources of the system under test live (VERIF_REPO, default /repo).
+var repoRoot = func() string {
+	r := os.Getenv("VERIF_REPO")
+	if r == "" {
+		r = "/repo"
+	}
+	return strings.TrimRight(r, "/") + "/"
+}()
+
 func panicOrigin(st string) (where string, internal bool) {
 	i := strings.Index(st, "panic(")
 	if i < 0 {
@@ -117,7 +126,7 @@ func panicOrigin(st string) (where string, internal bool) {
 		if !strings.HasPrefix(ln, "/") {
 			continue // a function line
 		}
-		repo := strings.HasPrefix(ln, "/repo/") || strings.Contains(ln, "/instr_out/src/")
+		repo := strings.HasPrefix(ln, repoRoot) || strings.Contains(ln, "/instr_out/src/")
 		if first && !strings.Contains(ln, "/src/runtime/") && !strings.Contains(ln, "/src/sync/") && !strings.Contains(ln, "/src/internal/") {
 			first = false
 			internal = repo
@@ -129,7 +138,7 @@ func panicOrigin(st string) (where string, internal bool) {
 			if j := strings.Index(ln, "/instr_out/src/"); j >= 0 {
 				ln = ln[j+len("/instr_out/src/"):]
 			}
-			where += " < " + strings.TrimPrefix(ln, "/repo/")
+			where += " < " + strings.TrimPrefix(ln, repoRoot)
 			if k++; k == 4 {
 				break
 			}
